@@ -162,6 +162,57 @@ and_or!(c14_or_zero_false, Operator::Or, 3, 1);
 and_or!(c14_or_empty_list_true, Operator::Or, 5, 0);
 and_or!(c14_or_empty_map_null, Operator::Or, 7, 2);
 
+// ---- the `if()` function: the only built-in that evaluates its arguments
+// lazily, implemented inline in `sass::Value::do_evaluate` (C14 truthiness,
+// C17 "runs exactly the first branch whose condition is truthy"). ----
+struct IfProbe {
+    cond_tag: u8,
+    evaluated: Cell<[u8; 3]>,
+}
+impl IfProbe {
+    /// stands for `args.evaluate_single(scope, name, index)`
+    fn eval(&self, index: usize) -> Result<css::Value, ()> {
+        let mut e = self.evaluated.get();
+        e[index] += 1;
+        self.evaluated.set(e);
+        Ok(match index {
+            0 => shallow(self.cond_tag),
+            1 => css::Value::True,
+            _ => css::Value::False,
+        })
+    }
+}
+
+//@range file=rsass/src/sass/value.rs impl="impl Value" fn=do_evaluate from="if args\n                        .evaluate_single(scope.clone(), name!(condition), 0)" until=";\n                }\n                let call = args.evaluate"
+//@  header: fn snippet_if_function(probe: &IfProbe) -> Result<css::Value, ()>
+//@  resubst: args\s*\.evaluate_single\(scope(?:\.clone\(\))?, name!\(\w+\), (\d)\) => probe.eval(\1)
+//@end
+
+/// C14 / C17: `if($condition, $if-true, $if-false)` yields the second
+/// argument exactly when the condition is truthy, and evaluates only the
+/// argument it yields.
+macro_rules! if_fn {
+    ($name:ident, $tag:expr) => {
+        #[kani::proof]
+        #[kani::unwind(4)]
+        fn $name() {
+            let p = IfProbe { cond_tag: $tag, evaluated: Cell::new([0; 3]) };
+            let r = snippet_if_function(&p);
+            let truthy = !($tag == 1 || $tag == 2);
+            assert!(matches!(r, Ok(css::Value::True)) == truthy && matches!(r, Ok(css::Value::False)) == !truthy, "if(): the first branch exactly when the condition is truthy");
+            let e = p.evaluated.get();
+            assert!(e[0] == 1, "the condition is evaluated once");
+            assert!(e[1] == truthy as u8 && e[2] == !truthy as u8, "only the branch that is returned is evaluated");
+        }
+    };
+}
+if_fn!(c14_if_function_true, 0);
+if_fn!(c14_if_function_false, 1);
+if_fn!(c14_if_function_null, 2);
+if_fn!(c14_if_function_zero, 3);
+if_fn!(c14_if_function_empty_list, 5);
+if_fn!(c14_if_function_empty_string, 15);
+
 // ---- map literals: two `==` keys are an error (C13) ----
 //
 // With css::Value keys CBMC needs > 6 GB and > 8 min per two-entry literal
